@@ -192,6 +192,10 @@ def run(ctx):
                          (b"/mail/box.mbox|/MBOX-MESSAGE/1000000000000000\r\n", False), (b"/maild|/MAILDIR-MESSAGE/99999999999999999999\r\n", False),
                          (b"GET /mail/box.mbox%7C/MBOX-MESSAGE/123456789012345678 HTTP/1.0\r\n\r\n", False), (b"/mail/box.mbox|/MBOX-MESSAGE/0\r\n", False),
                          (b"/mail/box.mbox|/MBOX-MESSAGE/-1\r\n", False),
+                         # more digits than int() converts (CPython refuses beyond 4300), and digits that are not ASCII
+                         (b"/mail/box.mbox|/MBOX-MESSAGE/" + b"9" * 5000 + b"\r\n", False), (b"GET /maild%7C/MAILDIR-MESSAGE/" + b"1" * 4301 + b" HTTP/1.0\r\n\r\n", False),
+                         ("/mail/box.mbox|/MBOX-MESSAGE/\u0661\r\n".encode(), False), ("/mail/box.mbox|/MBOX-MESSAGE/\u00b2\r\n".encode(), False),
+                         ("/maild|/MAILDIR-MESSAGE/\u2460\t+\r\n".encode(), False),
                          # Gopher+ information and directory requests for objects the handler only finds missing late
                          (b"/mail/box.mbox|/MBOX-MESSAGE/9999\t!\r\n", False), (b"/maild|/MAILDIR-MESSAGE/77\t!\r\n", False),
                          (b"/mail/box.mbox|/MBOX-MESSAGE/9999\t$\r\n", False), (b"/mail/box.mbox|/MBOX-MESSAGE/3\t+\r\n", False),
